@@ -299,7 +299,7 @@ def shape_key(case, graph):
     dt = "daqmx" if case["daqmx"] is not None else case["data"]["dtype"]
     if graph is None:
         return "%s-unscaled" % dt
-    return "%s-%s" % (dt, "+".join(sc["t"].lower() for sc in graph))
+    return "%s-%s" % (dt, L.graph_label(graph))
 
 
 def run_case(run, case, stats):
